@@ -173,6 +173,8 @@ class C05(Engine):
 			c([op_run(enabled=False)])
 			c([op_run(), op_run(enabled=False), op_run()])
 			c([op_run(), {'op': 'touch', 'm': leaf, 'dt': 10**9}, op_run()])
+			# edits whose mtime moves by less than the coarsest granularity a cache key could have (1 us, just under 1 s, 1 s, 2 s)
+			c([op_run(), {'op': 'edit', 'm': leaf, 'v': 1, 'dt': 1000}, op_run(), {'op': 'edit', 'm': leaf, 'v': 2, 'dt': 10**9 - 1}, op_run(), {'op': 'edit', 'm': leaf, 'v': 0, 'dt': 2 * 10**8}, op_run()])
 			c([op_run(), {'op': 'edit', 'm': leaf, 'v': 1, 'dt': 10**9}, op_run(), {'op': 'edit', 'm': leaf, 'v': 0, 'dt': 10**9}, op_run()])
 			c([op_run(), {'op': 'edit', 'm': leaf, 'v': 1, 'dt': -10**9}, op_run()])
 			c([op_run(), {'op': 'lose', 'pick': 0.5, 'cls': 'tree'}, op_run()])
